@@ -11,7 +11,7 @@ CHECKS = {
  "C02": ("proptest: near-miss password mutators; oracle = exact InvalidLoginError + positive control",
          "Generated search over (password, near-miss mutation) pairs (bit flips, prefixes/extensions, NUL/space/newline, case, swaps, empty, 65535-byte pairs, len+256 with equal tail) per suite; wrong password must end in exactly InvalidLoginError, right password must succeed in the same sessions.",
          "Sampling. OPRF/hash collisions assumed impossible.", "5 C02"),
- "C03": ("proptest + exhaustive per-case enumeration of finalization mutants (all bit flips / byte substitutions, XOR-cancelling / sum-preserving / permuting multi-byte alterations, publicly computable constants; pending states also after a native / bincode / JSON round trip) + libFuzzer target server_finish (thorough) + corpus replay; oracle = acceptance model",
+ "C03": ("proptest + exhaustive per-case enumeration of finalization mutants (all bit flips / byte substitutions, XOR-cancelling / sum-preserving / permuting multi-byte alterations, publicly computable constants, Nh-byte windows of the server's own responses reflected back; pending states also after a native / bincode / JSON round trip) + libFuzzer target server_finish (thorough) + corpus replay; oracle = acceptance model",
          "For generated pending server states (real, fake-record, wrong-password, answered-twice) every single-bit flip and every single-byte substitution of the genuine finalization plus cross-session/constant/random candidates is delivered to a clone; only the matching finalization may yield a key.",
          "Bit/byte substitutions are exhaustive per sampled state; states are sampled. MAC forgeries not generated are out of reach.", "5 C03"),
  "C04": ("proptest + per-case enumeration of response mutants (offset x value, field mixes, fresh fields, reflection of the client's own request values, XOR-cancelling / sum-preserving / permuting multi-byte alterations per field) + libFuzzer target login_response (thorough) + corpus replay; oracle = acceptance model with alias separation",
